@@ -91,7 +91,8 @@ def run(tier: str, seed: int, t0: float) -> int:
             stats.add_tlc(r, "M MC_MarkOps")
     jobs = []
     # ---- G+T: s1t
-    gb = universe.bounds(4 if not thorough else 5, marksets=((), (EM,), (LINK,), (LINK, EM)))
+    LV = {"t": "link", "a": "{\"href\":\"v\"}"}
+    gb = universe.bounds(4 if not thorough else 5, marksets=((), (EM,), (LINK,), (LV,), (LINK, EM)))
     sch, js, docs = universe.tlc_docs("s1t", gb, stats)
     b = trace.Batch(js)
     marks = mark_universe(sch)
